@@ -530,6 +530,20 @@ impl ReqPlan {
         }
         for (n, v, append) in &self.headers {
             let name = attohttpc::header::HeaderName::from_bytes(n.as_bytes()).expect("generated header name");
+            // (no draw) a caller's Host field that names somebody else on port 81 comes second: the first one the
+            // caller wrote is the URL's own authority (copied from an earlier request, say).  One Host field goes out
+            if n.eq_ignore_ascii_case("host") && v == b"evil.test:81" {
+                let authority = {
+                    let insp = rb.inspect();
+                    let u = insp.url();
+                    match u.port() {
+                        Some(p) => format!("{}:{}", u.host_str().unwrap_or_default(), p),
+                        None => u.host_str().unwrap_or_default().to_string(),
+                    }
+                };
+                rb = rb.header(name.clone(), authority.as_str()).header_append(name, &v[..]);
+                continue;
+            }
             // (no draw) some values arrive as a typed `HeaderValue` marked sensitive, as callers do for tokens:
             // the mark is about logging, the field goes out like any other, on every hop
             if v.len() % 4 == 1 {
